@@ -147,6 +147,9 @@ func (fr *Frame) doCallWith(c *ssa.CallCommon, instr ssa.Instruction, fnVal Val,
 			g, err := env.evalBool(h.Expr)
 			if err != nil {
 				vc.contractError(h, err)
+			} else if h.GhostName == "assume" {
+				vc.assume(pc, g)
+				vc.UsedAssumed["assumption at call "+h.Callee+" in "+vc.RootKey+": "+h.Expr.String()] = true
 			} else {
 				hn := h.Callee
 				if h.Op != "" {
